@@ -3,11 +3,17 @@
    generic in the arithmetic `o` (IEEE floats / exact rationals).
    Specification: Model/C05_Spec.v (dominance depth by peeling; fronts_correct = what the
    non-dominated sorter is assumed to return; decided in Coq on the implementation's fronts in
-   every correspondence case). *)
+   every correspondence case).
+   Second half (theorems named C05_full_...): the same clauses for Model/C05_Full.v, sel_nsga2_full o nd pop k =
+   selNSGA2(individuals, k, nd) INCLUDING the non-dominated sort (property C04's models of
+   sortNondominated / sortLogNondominated); the hypothesis fronts_correct is proved there
+   (C05_full_fronts_correct), not assumed. *)
 From Coq Require Import List ZArith QArith Bool.
 From DV Require Import Base.PyList Model.C05_Nsga2 Model.C05_Spec Model.C05_CrowdSpec Model.C05_SortStd
      Proofs.C05_Spec Proofs.C05_Nsga2 Proofs.C05_QInst Proofs.C05_Crowding
-     Proofs.C05_CutFront Proofs.C05_Depth Proofs.C05_Extremes Proofs.C05_FloatOrd Proofs.C05_All Proofs.C05_Final.
+     Proofs.C05_CutFront Proofs.C05_Depth Proofs.C05_Extremes Proofs.C05_FloatOrd Proofs.C05_All Proofs.C05_Final
+     Model.C05_Full Proofs.C05_Compose Proofs.C05_FullClauses.
+From DV Require Model.C04_NDSort Model.C04_LogSort.
 Import ListNotations.
 Local Open Scope nat_scope.
 
@@ -201,3 +207,189 @@ Example C05_formula_nonvacuous :
   map (fun j => qinf_red (crowd_spec ex_front j)) [0; 1; 2; 3] = [Inf; Fin (31 # 40); Fin (23 # 40); Inf] /\
   assign_crowding q_ops ex_front = [Inf; Fin (31 # 40); Fin (23 # 40); Inf].
 Proof. vm_compute. split; reflexivity. Qed.
+
+(* ==========================================================================================
+   End to end: sel_nsga2_full o nd pop k (Model/C05_Full.v) = selNSGA2(individuals, k, nd) with the
+   sort inside the model.  No hypothesis about the fronts.  Preconditions:
+     pop_ok pop : individuals numbered by position, population non-empty, one number of objectives;
+     nd_ok nd pop : nd is 'standard' or 'log'; for 'log' every individual has >= 2 objectives.
+   ========================================================================================== *)
+
+(* the hypothesis of the first half, proved: for either back-end the sort returns (never runs out of
+   fuel, never raises) and its fronts are the peeling layers cut at the first prefix reaching min(k, n) *)
+Theorem C05_full_fronts_correct : forall (A : Type) nd (pop : list (ind A)) k,
+  pop_ok pop -> nd_ok nd pop ->
+  exists fronts, nd_fronts nd pop k = Some fronts /\ fronts_correct pop k fronts.
+Proof. exact (@nd_fronts_correct). Qed.
+Print Assumptions C05_full_fronts_correct.
+
+(* C05's specification of the fronts is C04's: the peeling layers are C04's spec_fronts of the same
+   population (same order of fronts and inside fronts), and C05's dominance is Fitness.dominates as
+   modelled by C01/C04 on tuples of equal length *)
+Theorem C05_layers_are_C04_spec_fronts : forall (A : Type) (pop : list (ind A)),
+  (forall x y, In x pop -> In y pop -> length (wv x) = length (wv y)) ->
+  map (map to4) (layers pop) = C04_NDSort.spec_fronts (pop4 pop).
+Proof. exact (@layers_spec). Qed.
+Print Assumptions C05_layers_are_C04_spec_fronts.
+
+Theorem C05_dom_is_C04_dominates : forall a b : list Z,
+  length a = length b -> dom a b = C04_NDSort.nd_dom a b.
+Proof. exact dom_nd_dom. Qed.
+Print Assumptions C05_dom_is_C04_dominates.
+
+(* selNSGA2 returns (no exception) *)
+Theorem C05_full_defined : forall o nd (pop : list (ind (V o))) k,
+  pop_ok pop -> nd_ok nd pop -> exists r, sel_nsga2_full o nd pop k = Some r.
+Proof. exact full_defined. Qed.
+Print Assumptions C05_full_defined.
+
+(* exactly min(k, n) individuals *)
+Theorem C05_full_size : forall o nd (pop : list (ind (V o))) k,
+  pop_ok pop -> nd_ok nd pop -> forall r, sel_nsga2_full o nd pop k = Some r ->
+  length r = Nat.min k (length pop).
+Proof. exact full_size. Qed.
+Print Assumptions C05_full_size.
+
+(* each of them one of the input objects, none twice *)
+Theorem C05_full_refs_nodup : forall o nd (pop : list (ind (V o))) k,
+  pop_ok pop -> nd_ok nd pop -> forall r, sel_nsga2_full o nd pop k = Some r ->
+  (forall x, In x r -> In x pop) /\ NoDup (uids r).
+Proof. exact full_refs_nodup. Qed.
+Print Assumptions C05_full_refs_nodup.
+
+(* no individual left out belongs to a strictly better front than a selected one *)
+Theorem C05_full_front_priority : forall o nd (pop : list (ind (V o))) k,
+  pop_ok pop -> nd_ok nd pop -> forall r, sel_nsga2_full o nd pop k = Some r ->
+  forall x y, In x r -> In y pop -> ~ In (uid y) (uids r) -> depth pop x <= depth pop y.
+Proof. exact full_front_priority. Qed.
+Print Assumptions C05_full_front_priority.
+
+(* only one front is taken partially *)
+Theorem C05_full_one_partial_front : forall o nd (pop : list (ind (V o))) k,
+  pop_ok pop -> nd_ok nd pop -> forall r, sel_nsga2_full o nd pop k = Some r ->
+  exists c, forall y, In y pop ->
+    (depth pop y < c -> In (uid y) (uids r)) /\ (c < depth pop y -> ~ In (uid y) (uids r)).
+Proof. exact full_one_partial_front. Qed.
+Print Assumptions C05_full_one_partial_front.
+
+(* ... and which one: the index m fixed by the sizes of the peeling layers (cut_at pop k m: the layers
+   before m hold fewer than min(k, n) individuals, those up to m at least that many).  Nobody deeper than m
+   is selected, everybody shallower is, and the last front produced by the sort is exactly depth class m. *)
+Theorem C05_full_cut_explicit : forall o nd (pop : list (ind (V o))) k r,
+  pop_ok pop -> nd_ok nd pop -> sel_nsga2_full o nd pop k = Some r ->
+  0 < k -> forall m, cut_at pop k m ->
+  (forall x, In x r -> depth pop x <= m) /\
+  (forall y, In y pop -> depth pop y < m -> In (uid y) (uids r)) /\
+  (forall fronts, nd_fronts nd pop k = Some fronts ->
+     forall y, In y pop -> (In (uid y) (uids (last fronts [])) <-> depth pop y = m)).
+Proof. exact full_cut_explicit. Qed.
+Print Assumptions C05_full_cut_explicit.
+
+Theorem C05_cut_at_exists_unique : forall (A : Type) (pop : list (ind A)) k,
+  pop_ok pop -> 0 < k ->
+  (exists m, cut_at pop k m) /\ (forall m1 m2, cut_at pop k m1 -> cut_at pop k m2 -> m1 = m2).
+Proof. exact (fun A pop k OK K => conj (full_cut_at_exists pop k OK K) (cut_at_unique pop k)). Qed.
+Print Assumptions C05_cut_at_exists_unique.
+
+(* inside the cut front every kept individual has a crowding distance at least as large as every
+   dropped one; `fronts` only names what the sort produced (nd_fronts is a function) *)
+Theorem C05_full_crowding_cut_generic : forall o nd (pop : list (ind (V o))) k,
+  pop_ok pop -> nd_ok nd pop -> forall r, sel_nsga2_full o nd pop k = Some r ->
+  forall fronts, nd_fronts nd pop k = Some fronts ->
+  forall P : D o -> Prop,
+  (forall a b, P a -> P b -> dltb o a b = true -> dltb o b a = false) ->
+  (forall a b c, P a -> P b -> P c -> dltb o b a = false -> dltb o c b = false -> dltb o c a = false) ->
+  forall lastf, lastf = last fronts [] -> Forall P (assign_crowding o lastf) ->
+  forall x dx y dy,
+    In (x, dx) (combine lastf (assign_crowding o lastf)) ->
+    In (y, dy) (combine lastf (assign_crowding o lastf)) ->
+    In (uid x) (uids r) -> ~ In (uid y) (uids r) -> dltb o dx dy = false.
+Proof. exact full_crowding_cut_generic. Qed.
+Print Assumptions C05_full_crowding_cut_generic.
+
+Theorem C05_full_crowding_cut : forall nd (pop : list (ind Q)) k r,
+  pop_ok pop -> nd_ok nd pop -> sel_nsga2_full q_ops nd pop k = Some r ->
+  forall fronts, nd_fronts nd pop k = Some fronts ->
+  forall lastf, lastf = last fronts [] ->
+  forall x dx y dy,
+    In (x, dx) (combine lastf (assign_crowding q_ops lastf)) ->
+    In (y, dy) (combine lastf (assign_crowding q_ops lastf)) ->
+    In (uid x) (uids r) -> ~ In (uid y) (uids r) -> qinf_ge dx dy.
+Proof. exact full_crowding_cut_q. Qed.
+Print Assumptions C05_full_crowding_cut.
+
+Theorem C05_full_crowding_cut_float : forall nd (pop : list (ind PrimFloat.float)) k r,
+  pop_ok pop -> nd_ok nd pop -> sel_nsga2_full f_ops nd pop k = Some r ->
+  forall fronts, nd_fronts nd pop k = Some fronts ->
+  forall lastf, lastf = last fronts [] ->
+  Forall (fun d => PrimFloat.is_nan d = false) (assign_crowding f_ops lastf) ->
+  forall x dx y dy,
+    In (x, dx) (combine lastf (assign_crowding f_ops lastf)) ->
+    In (y, dy) (combine lastf (assign_crowding f_ops lastf)) ->
+    In (uid x) (uids r) -> ~ In (uid y) (uids r) -> PrimFloat.ltb dx dy = false.
+Proof. exact full_crowding_cut_float. Qed.
+Print Assumptions C05_full_crowding_cut_float.
+
+(* k >= n: the whole population, ordered by front rank; for any k depths never decrease *)
+Theorem C05_full_all_when_k_ge_n : forall o nd (pop : list (ind (V o))) k,
+  pop_ok pop -> nd_ok nd pop -> forall r, sel_nsga2_full o nd pop k = Some r ->
+  length pop <= k -> Permutation.Permutation (uids r) (uids pop).
+Proof. exact full_all_when_k_ge_n. Qed.
+Print Assumptions C05_full_all_when_k_ge_n.
+
+Theorem C05_full_rank_ordered : forall o nd (pop : list (ind (V o))) k,
+  pop_ok pop -> nd_ok nd pop -> forall r, sel_nsga2_full o nd pop k = Some r ->
+  Sorting.Sorted.StronglySorted (fun x y => depth pop x <= depth pop y) r.
+Proof. exact full_rank_ordered. Qed.
+Print Assumptions C05_full_rank_ordered.
+
+Theorem C05_full_cut_front_is_depth_class : forall o nd (pop : list (ind (V o))) k,
+  pop_ok pop -> nd_ok nd pop -> forall r, sel_nsga2_full o nd pop k = Some r ->
+  forall fronts, nd_fronts nd pop k = Some fronts -> 0 < k ->
+  exists m, forall y, In y pop -> (In (uid y) (uids (last fronts [])) <-> depth pop y = m).
+Proof. exact full_cut_front_depth. Qed.
+Print Assumptions C05_full_cut_front_is_depth_class.
+
+(* "Both sorting back-ends give a selection satisfying the same contract": every C05_full_... theorem
+   above holds for nd = NdStandard and nd = NdLog alike; moreover the two selections have the same size,
+   contain the same whole fronts (one common cut depth c) and cut the same front (same set of individuals). *)
+Theorem C05_full_both_backends : forall o (pop : list (ind (V o))) k,
+  pop_ok pop -> (forall x, In x pop -> 2 <= length (wv x)) ->
+  exists r1 r2 c,
+    sel_nsga2_full o NdStandard pop k = Some r1 /\ sel_nsga2_full o NdLog pop k = Some r2 /\
+    length r1 = Nat.min k (length pop) /\ length r2 = Nat.min k (length pop) /\
+    (forall y, In y pop ->
+       (depth pop y < c -> In (uid y) (uids r1) /\ In (uid y) (uids r2)) /\
+       (c < depth pop y -> ~ In (uid y) (uids r1) /\ ~ In (uid y) (uids r2))) /\
+    (0 < k -> forall f1 f2, nd_fronts NdStandard pop k = Some f1 -> nd_fronts NdLog pop k = Some f2 ->
+       forall y, In y pop -> (In (uid y) (uids (last f1 [])) <-> In (uid y) (uids (last f2 [])))).
+Proof. exact full_backends_agree. Qed.
+Print Assumptions C05_full_both_backends.
+
+(* outside the preconditions the model follows the code: another `nd` raises; on the empty population
+   the quadratic sort returns [[]] and nothing is selected, the divide-and-conquer sort raises
+   (IndexError on individuals[0]) unless k = 0 *)
+Theorem C05_full_outside_preconditions : forall o (pop : list (ind (V o))) k,
+  sel_nsga2_full o NdOther pop k = None /\
+  sel_nsga2_full o NdStandard [] k = Some [] /\
+  sel_nsga2_full o NdLog [] k = (if Nat.eqb k 0 then Some [] else None).
+Proof. exact (fun o pop k => conj (full_other o pop k) (conj (full_empty_std o k) (full_empty_log o k))). Qed.
+Print Assumptions C05_full_outside_preconditions.
+
+(* the preconditions are decidable; the correspondence evaluates these on every case *)
+Theorem C05_full_preconditions_decided : forall (A : Type) nd (pop : list (ind A)),
+  pop_ok_b pop = true -> nd_ok_b nd pop = true -> pop_ok pop /\ nd_ok nd pop.
+Proof. exact (fun A nd pop H1 H2 => conj (pop_ok_b_sound pop H1) (nd_ok_b_sound nd pop H2)). Qed.
+Print Assumptions C05_full_preconditions_decided.
+
+(* non-vacuity: the population of C05_nonvacuous meets the preconditions of both back-ends; the fronts
+   the two sorters produce (different order inside the front) and the selections *)
+Example C05_full_nonvacuous :
+  pop_ok_b ex_pop = true /\ nd_ok_b NdStandard ex_pop = true /\ nd_ok_b NdLog ex_pop = true /\
+  option_map (map uids) (nd_fronts NdStandard ex_pop 2) = Some [[0; 1; 2]] /\
+  option_map (map uids) (nd_fronts NdLog ex_pop 2) = Some [[2; 1; 0]] /\
+  option_map uids (sel_nsga2_full q_ops NdStandard ex_pop 2) = Some [0; 2] /\
+  option_map uids (sel_nsga2_full q_ops NdLog ex_pop 2) = Some [2; 0] /\
+  option_map uids (sel_nsga2_full q_ops NdLog ex_pop 7) = Some [2; 1; 0; 3] /\
+  cut_at ex_pop 2 0 /\ cut_at ex_pop 7 1.
+Proof. vm_compute. repeat split; auto. Qed.
